@@ -510,6 +510,12 @@ func c15Stores(c *h.Ctx, id string, r *rand.Rand) {
 }
 
 func c15Run(c *h.Ctx) {
+	for k := 0; k < c.Pick(2, 12); k++ {
+		id := fmt.Sprintf("servepub%d", k)
+		if c.Case(id) {
+			c15ServeWhilePublishing(c, id, c.Rng(id))
+		}
+	}
 	for k := 0; k < c.Pick(4, 40); k++ {
 		id := fmt.Sprintf("several%d", k)
 		if c.Case(id) {
@@ -535,7 +541,7 @@ func init() {
 		ID: "C15", Level: "exploration",
 		Rule: "producer and consumer object.Client, each on a real basic.Engine over a harness face and a shared virtual clock; the harness relays every packet on its own goroutine choosing per packet deliver / reorder / drop from the PRNG (<=3 drops per Interest name, or every attempt of one segment Interest in the beyond-budget profile) and advances the clock only at exact quiescence " +
 			"(relay queue empty, both Client.run goroutines parked in select); contents of 1..200000 bytes around multiples of 8000 split into 1-7 input buffers, object names with and without spare slice capacity, 1-4 versions published in random order, newest version optionally removed, memory and bolt stores; oracle: completion reported exactly once; within the retry budget without error and with the concatenation of Content() chunks equal to the newest version's bytes; " +
-			"beyond it an error completion is accepted; plus 2-4 objects of very different lengths fetched at the same time through one consumer client (each must complete once with its own bytes); plus a MemoryStore/BoltStore differential over Produce/Remove histories (exact names and newest metadata); distinct = (store, profile, #segments, #versions, removal, tail length)",
+			"beyond it an error completion is accepted; plus 2-4 objects of very different lengths fetched at the same time through one consumer client (each must complete once with its own bytes); plus the on-disk store read from two goroutines while further objects are published (every read returns the stored packet, every published segment is retrievable afterwards); plus a MemoryStore/BoltStore differential over Produce/Remove histories (exact names and newest metadata); distinct = (store, profile, #segments, #versions, removal, tail length)",
 		Assumptions: []string{"version 0 (immutable) is not used: neither store returns it from a prefix query", "prefix queries whose answer is not unique (several packets of the same version) are not compared between the stores"},
 		Batches:     func(t bool) int { return 16 },
 		ChildTimeoutS: func(t bool) int {
